@@ -13,6 +13,7 @@ import (
 type c09Case struct {
 	P     []float64
 	Fracs []float64 // split positions as fractions of Length()
+	Vtx   []int     // further split positions: Length() of the path up to the end of segment Vtx[i] (mod the number of segments)
 	Kind  string
 }
 
@@ -55,8 +56,35 @@ func genC09(kind string) func(r *core.Rng) any {
 				fr = append(fr, f)
 			}
 		}
-		return &c09Case{P: dataCopy(p), Fracs: fr, Kind: kind}
+		// cuts at vertices, the way a caller finds them: the length of the leading part of the path
+		var vtx []int
+		if r.Chance(0.3) {
+			for i, m := 0, r.IntRange(1, 2); i < m; i++ {
+				vtx = append(vtx, r.Intn(64))
+			}
+		}
+		return &c09Case{P: dataCopy(p), Fracs: fr, Vtx: vtx, Kind: kind}
 	}
+}
+
+// c09VertexLengths returns Length() of every proper leading part of a single sub-path (the part up
+// to the end of its k-th segment, the last segment excluded).
+func c09VertexLengths(d []float64) []float64 {
+	var out []float64
+	for i := 0; i < len(d); {
+		n := 4
+		switch d[i] {
+		case canvas.QuadToCmd:
+			n = 6
+		case canvas.CubeToCmd, canvas.ArcToCmd:
+			n = 8
+		}
+		i += n
+		if d[i-1] != canvas.MoveToCmd && i < len(d) {
+			out = append(out, canvas.NewPathFromData(append([]float64{}, d[:i]...)).Length())
+		}
+	}
+	return out
 }
 
 func c09Corpus() []any {
@@ -110,18 +138,30 @@ func c09Check(ci any, o *core.Obs) {
 	}
 
 	// ---- SplitAt -----------------------------------------------------------------------------------
-	ts := make([]float64, len(c.Fracs))
+	pos := make([]float64, len(c.Fracs))
 	for i, f := range c.Fracs {
-		ts[i] = f * L
+		pos[i] = f * L
 	}
+	if len(c.Vtx) > 0 && len(src) == 1 {
+		if vl := c09VertexLengths(c.P); len(vl) > 0 {
+			for _, v := range c.Vtx {
+				x, dup := vl[v%len(vl)], false
+				for _, y := range pos { // the positions are a set
+					dup = dup || x == y
+				}
+				if !dup {
+					pos = append(pos, x)
+					o.Count("splitat_vertex_cuts", 1)
+				}
+			}
+		}
+	}
+	ts := append([]float64{}, pos...)
 	sort.Float64s(ts)
 	var pieces []*canvas.Path
 	// the positions are passed in the order they were generated in (arbitrary; SplitAt sorts a copy),
 	// in a quarter of the cases sorted
-	tsArg := make([]float64, len(c.Fracs))
-	for i, f := range c.Fracs {
-		tsArg[i] = f * L
-	}
+	tsArg := append([]float64{}, pos...)
 	if rs := caseRng(c, "C09order"); rs.Chance(0.25) {
 		sort.Float64s(tsArg)
 	}
@@ -162,7 +202,19 @@ func c09Check(ci any, o *core.Obs) {
 				sum += l
 			}
 			o.Decided(1)
-			if math.Abs(sum-Lref) > 1e-6*Lref {
+			// two cuts closer together than the precision of the arc-length inversion (0.1% per segment)
+			// can be placed in the wrong order on a curve, the piece between them then runs backwards:
+			// the total may exceed the input by up to twice their distance
+			slack := 0.0
+			for k := 1; k < len(cuts); k++ {
+				if d := cuts[k] - cuts[k-1]; d < 2e-3*L {
+					slack += 2 * d / L * Lref
+				}
+			}
+			if slack > 0 {
+				o.Count("splitat_sum_slack_close_cuts", 1)
+			}
+			if math.Abs(sum-Lref) > 1e-6*Lref+slack {
 				o.Fail("splitat:length-sum", "SplitAt(%v): pieces have total reference length %.9g, input %.9g; input %s", ts, sum, Lref, pstr(P))
 			}
 			// number of pieces and cut positions (single sub-path inputs: n cuts give n+1 pieces)
@@ -307,7 +359,7 @@ const (
 
 func c09Describe(ci any) any {
 	c := ci.(*c09Case)
-	return map[string]any{"kind": c.Kind, "P": dstr(c.P), "split_fractions": c.Fracs}
+	return map[string]any{"kind": c.Kind, "P": dstr(c.P), "split_fractions": c.Fracs, "vertex_cuts": c.Vtx}
 }
 
 func init() {
